@@ -404,12 +404,16 @@ func (r *funcRun) applyContract(st *State, c *Contract, callee string, names []s
 			}
 		}
 	}
-	// havoc frame
+	// havoc frame (the allocation counter is advanced first so that the new versions of
+	// the components may hold references allocated by the callee)
 	if !c.HasMod {
 		r.note("call of " + callee + " has no modifies clause: whole heap havocked")
 		st.havocAll()
 	} else {
 		whole, targets := r.modTargets(st, c, vars, pre, pre)
+		if !c.Pure {
+			st.bumpAlloc()
+		}
 		sigOf := func(m string) (string, bool) {
 			sig, known := st.compSig[m]
 			if !known {
@@ -454,9 +458,6 @@ func (r *funcRun) applyContract(st *State, c *Contract, callee string, names []s
 			st.havocComp(m)
 			after := st.comp(m, sig)
 			st.assume(r.frameFormula(sig, after, before, pre.alloc, framed[m], true))
-		}
-		if !c.Pure {
-			st.bumpAlloc()
 		}
 	}
 	// results
